@@ -75,8 +75,8 @@ func TestVerifC09(t *testing.T) {
 		fp := newVerifFakeProxy()
 		type creq struct {
 			id, tok, user string
-			fields       [][2]string
-			ws           bool
+			fields        [][2]string
+			ws            bool
 		}
 		var reqs []creq
 		for i := 0; i < n; i++ {
